@@ -353,10 +353,11 @@ def t_part(ctx, prop):
         # the comparison with the reference semantics is needed here only for the property's own post-conditions
         run = [n for n in run if prop in possible_labels(SCHEMAS[n])]
     results, diffs = {}, {}
+    xtra = 1 if ctx.tier == 'thorough' else 0      # thorough: one byte beyond the schema's own bound where the table count allows
     with concurrent.futures.ThreadPoolExecutor(max_workers=14) as ex:
         esc = set(ctx.cache.get('escalate') or [])
-        futs = {n: ex.submit(run_schema, T, n, sm.bound_for(SCHEMAS[n], THOROUGH_CAP if n in esc else cap)) for n in run}
-        dfuts = {n: ex.submit(run_diff, T, n, tw, sm.bound_for(SCHEMAS[n], cap), DIFF[prop][1]) for n, tw in diff_jobs.items()}
+        futs = {n: ex.submit(run_schema, T, n, sm.bound_for(SCHEMAS[n], THOROUGH_CAP if n in esc else cap, extra=xtra)) for n in run}
+        dfuts = {n: ex.submit(run_diff, T, n, tw, sm.bound_for(SCHEMAS[n], cap, extra=xtra), DIFF[prop][1]) for n, tw in diff_jobs.items()}
         for n, f in futs.items(): results[n] = f.result()
         for n, f in dfuts.items(): diffs[n] = f.result()
     for n, d in diffs.items():
